@@ -37,7 +37,7 @@ def body(case, rec):
     kind, invert = case["kind"], case["invert"]
     t0, _, style = cg.corpus()[ti]
     if rx.slow_known(t0, kind, invert):
-        rec.label("excluded:known-h2-full-its-backward")
+        rec.label("excluded:slow-h2-full-its-backward")
         return
     s_rsmi = cg.corpus()[si][0]
     r, p = s_rsmi.split(">>")
@@ -123,7 +123,7 @@ def body_identity(case, rec):
     kind, invert, strategy = case["kind"], case["invert"], case["strategy"]
     t0, _, style = cg.corpus()[ti]
     if rx.slow_known(t0, kind, invert) or rx.slow_known(cg.corpus()[di][0], kind, invert):
-        rec.label("excluded:known-h2-full-its-backward")
+        rec.label("excluded:slow-h2-full-its-backward")
         return
     s_rsmi = cg.corpus()[si][0]
     r, p = s_rsmi.split(">>")
